@@ -51,8 +51,30 @@ def crossDoc (fmt : String) (qs : List LQuad) : Str :=
 
 def hashSet (l : List (Option LQuad)) : String := toString (fnv (showSet l))
 
+/-- RDF/XML generated family (mirrors `xml_triple` of the harness): the k-th resource's triple, as a shown quad -/
+def xmlTriple (i : Nat) : LQuad :=
+  let o : String := if i % 3 == 0 then "http://e/r" ++ toString ((i * 7) % 1000) else "v" ++ toString i ++ " x"
+  ⟨.plain ("http://e/r" ++ toString i).toList, .plain ("http://e/p" ++ toString (i % 5)).toList, .plain o.toList, none⟩
+
+def sumHash (l : List String) : UInt64 := l.foldl (fun acc q => acc + fnv q) 0
+
 def handle (args : List String) : String :=
   match args with
+  | ["xml", n, extra, _layout, prior] =>
+    -- the RDF/XML reader itself is not modelled (quick-xml tokenisation): the expected store is the specification's
+    -- (previous quads plus the document's triples), compared by cardinality and an order-independent checksum
+    match n.toNat?, extra.toNat?, prior.toNat? with
+    | some n, some extra, some prior =>
+      let fam := (List.range (n + extra)).map xmlTriple
+      let pri : List LQuad :=
+        if prior == 2 then
+          [⟨.plain "urn:x".toList, .plain "urn:y".toList, .plain "urn:z".toList, none⟩,
+           ⟨.plain "http://e/p1".toList, .plain "http://e/r1".toList, .plain "v1 x".toList, none⟩]
+        else []
+      let all := (fam ++ pri).map showQuad
+      let r := "n=" ++ toString all.length ++ " sum=" ++ toString (sumHash all)
+      "M " ++ r ++ " | S " ++ r
+    | _, _, _ => "bad-request"
   | "cross" :: qs =>
     match qs.mapM parseQuadTok with
     | none => "bad-request"
